@@ -275,3 +275,151 @@ func H_C06_reader() {
 	vfAssert(w.allBack(), "C09.all-buffers-back-after-read-and-release")
 	vfCover("C06.reader.end")
 }
+
+// ---------------------------------------------------------------------------------------------
+// C08: zero-copy read results stay valid until they are released.
+
+type c08Result struct {
+	b   []byte
+	off int // position in the model
+	n   int
+}
+
+// slotOf locates the shared-memory slot a zero-copy result lives in: (class index, slot offset in
+// the class region); class -1 for heap copies.
+func (w *c06World) slotOf(b []byte) (int, uint32) {
+	off := vfOffsetIn(b, w.mem)
+	if off < 0 {
+		return -1, 0
+	}
+	for i := range w.bmB.lists {
+		l := w.bmB.lists[i]
+		base := int(l.bufferRegionOffsetInShm)
+		stride := int(*l.capPerBuffer) + bufferHeaderSize
+		if off >= base && off < base+int(*l.cap)*stride {
+			return i, uint32((off - base) / stride * stride)
+		}
+	}
+	return -1, 0
+}
+
+// inFreeChain walks the free chain of class ci and reports whether slot is on it.
+func (w *c06World) inFreeChain(ci int, slot uint32) bool {
+	l := w.bmB.lists[ci]
+	off := *l.head
+	for i := 0; i < 6; i++ {
+		if off == slot {
+			return true
+		}
+		if off+bufferHeaderSize > uint32(len(l.bufferRegion)) {
+			return false
+		}
+		h := bufferHeader(l.bufferRegion[off : off+bufferHeaderSize])
+		if !h.hasNext() {
+			return false
+		}
+		off = h.nextBufferOffset()
+	}
+	return false
+}
+
+// interfere: what any other stream of either process may do meanwhile: allocate whatever is
+// allocatable, scribble over it, give it back (so that the free chains rotate), allocate again
+// and keep it until the end.
+func (w *c06World) interfere(keep *[16]*bufferSlice, nkeep *int) {
+	pat := vfU8()
+	for round := 0; round < 2; round++ {
+		var got [8]*bufferSlice
+		n := 0
+		for i := range w.bmB.lists {
+			for k := 0; k < 4; k++ {
+				s, err := w.bmB.lists[i].pop()
+				if err != nil {
+					break
+				}
+				for j := range s.data {
+					s.data[j] = pat
+				}
+				if n < 8 {
+					got[n] = s
+					n++
+				}
+			}
+		}
+		for k := 0; k < n; k++ {
+			if round == 0 {
+				w.bmB.recycleBuffer(got[k])
+			} else if *nkeep < 16 {
+				keep[*nkeep] = got[k]
+				*nkeep++
+			}
+		}
+	}
+}
+
+func H_C08_pinned() {
+	w := c06Setup()
+	M := vfShape("messages", 1, 2)
+	for m := 0; m < M; m++ {
+		size := c06Sizes[vfShape("msize", 0, 7)]
+		w.write(0, size)
+		w.flush()
+	}
+	w.deliver()
+	var results [4]c08Result
+	nres := 0
+	var keep [16]*bufferSlice
+	nkeep := 0
+	R := vfShape("reads", 1, 3)
+	br := w.sB.BufferReader()
+	for i := 0; i < R; i++ {
+		kind := vfShape("rkind", 0, 5)
+		size := vfShape("rsize", 1, 14)
+		avail := w.flushed - w.consumed
+		if size > avail {
+			vfPrune()
+		}
+		if kind == 0 || kind == 1 {
+			var b []byte
+			var err error
+			if kind == 0 {
+				b, err = br.ReadBytes(size)
+			} else {
+				b, err = br.Peek(size)
+			}
+			vfAssert(err == nil && len(b) == size, "C08.read-len")
+			results[nres] = c08Result{b: b, off: w.consumed, n: size}
+			nres++
+			if kind == 0 {
+				w.consumed += size
+			}
+		} else {
+			w.read(kind, size)
+		}
+		if vfShape("interfere", 0, 1) == 1 {
+			w.interfere(&keep, &nkeep)
+		}
+		// every result obtained so far is still intact and its buffer is still owned by the reader
+		for r := 0; r < nres; r++ {
+			res := results[r]
+			for j := 0; j < 14; j++ {
+				if j < res.n {
+					vfAssert(res.b[j] == w.model[res.off+j], "C08.result-intact-until-release")
+				}
+			}
+			ci, slot := w.slotOf(res.b)
+			if ci >= 0 {
+				vfAssert(!w.inFreeChain(ci, slot), "C08.pinned-buffer-not-recycled-before-release")
+			}
+		}
+	}
+	// release: afterwards the buffers are available again
+	br.ReleasePreviousRead()
+	for k := 0; k < nkeep; k++ {
+		w.bmB.recycleBuffer(keep[k])
+	}
+	w.drain()
+	br.ReleasePreviousRead()
+	vfAssert(w.allBack(), "C08.buffers-available-again-after-release")
+	vfCover("C08.end")
+}
